@@ -37,7 +37,8 @@ WS_CHOICES = [' ', ' ', '  ', '\n', ' \n', '\n ', ' \n  ', '\t']
 PAR_CHOICES = ['\n\n', '\n\n', '\n \n', ' \n\n', '\n\n ', '\n\n\n', ' \n \n ']
 MATH_DELIMS = [('$', '$'), ('$$', '$$'), ('\\(', '\\)'), ('\\[', '\\]')]
 
-OPENERS = {'*': '*', 's': '*', '[': '[', 'o': '['}
+OPENERS = {'*': '*', 's': '*', '[': '[', 'o': '[', 'AnyDelimitedOptional': '{[(<'}
+ANY_DELIMS = [('{', '}'), ('[', ']'), ('(', ')'), ('<', '>')]
 
 
 class Redraw(Exception):
@@ -52,6 +53,8 @@ def slot_opener(kind):
         return kind[1]
     if kind[0] == 'd':
         return kind[1]
+    if kind.startswith('e{'):
+        return kind[2:-1]
     return None
 
 
@@ -386,6 +389,20 @@ class Gen(object):
             pre = self.arg_pre(kind, True)
             if kind in ('*', 's'):
                 out.append((pre, 'star'))
+            elif kind in ('AnyDelimited', 'AnyDelimitedOptional'):
+                o, c = rng.choice(ANY_DELIMS)
+                out.append((pre, 'grp', o, c, self.braced_block(o == '{', depth + 1, amath, maxn=2)))
+            elif kind.startswith('e{'):
+                # embellishments: each listed character at most once, in any order, each followed by one argument
+                chars = list(kind[2:-1])
+                rng.shuffle(chars)
+                embs = []
+                for ch in chars[:rng.randint(1, len(chars))]:
+                    if rng.random() < 0.5:
+                        embs.append((ch, 'tok', rng.choice('abxy12')))
+                    else:
+                        embs.append((ch, 'grp', rng.choice(['', 'u', 'v w', 'p{q}'])))
+                out.append(([w for w in pre if w[0] == 'W'], 'emb', embs))
             elif kind[0] == 't':
                 out.append((pre, 'mark', kind[1]))
             elif kind in ('[', 'o', '[nospace'):
@@ -624,7 +641,7 @@ def _render_args(d, args, r, vocab, math, mdelim=None):
         if a is None:
             op = slot_opener(kind) or ('[' if kind == '[nospace' else None)
             if op:
-                pending.add(op)
+                pending.update(op)
             continue
         pre, what = a[0], a[1]
         r.forbid = set()        # checked explicitly below against `pending`
@@ -654,6 +671,8 @@ def _render_args(d, args, r, vocab, math, mdelim=None):
             first = '\\'
         elif what == 'verb':
             first = a[2]
+        elif what == 'emb':
+            first = a[2][0][0]
         if first in pending:
             raise Redraw('argument starts with the opener of an absent optional slot before it')
         pending = set()
@@ -682,6 +701,16 @@ def _render_args(d, args, r, vocab, math, mdelim=None):
             r.forbid = set()
             r.after_word = False
             r.emit(c)
+        elif what == 'emb':
+            for ei, (ch, form, val) in enumerate(a[2]):
+                r.emit(ch, safe=vsafe and ei == 0)
+                r.after_word = False
+                if form == 'tok':
+                    r.emit(val, safe=False)
+                else:
+                    r.emit('{' + val + '}', safe=False)
+            # a character of the list that was not used would still be read as an embellishment
+            pending = set(kind[2:-1]) - set(e[0] for e in a[2])
         elif what == 'tok':
             r.tspans.append((r.n, r.n + len(a[2]), bool(amath), adelim if amath else None))
             r.emit(a[2], safe=vsafe)
@@ -821,6 +850,16 @@ def _expected_args(d, args, vocab, math):
             res.append(('M', a[2], []))
         elif what == 'verb':
             res.append(('G', a[2], a[3], [('VT', a[4])] if a[4] else []))
+        elif what == 'emb':
+            items = []
+            for ch, form, val in a[2]:
+                if form == 'tok':
+                    items.append(('G', ch, '', [('T', val)]))
+                else:
+                    inner = [('T', 'p'), ('G', '{', '}', [('T', 'q')])] if val == 'p{q}' else \
+                            ([('T', ''.join(val.split()))] if val else [])
+                    items.append(('G', ch, '', [('G', '{', '}', inner)]))
+            res.append(items[0] if len(items) == 1 else ('L', items))
     return res
 
 
@@ -931,6 +970,8 @@ def same(exp, got, path='doc'):
         if tuple(exp[1:4]) != tuple(got[1:4]):
             return '%s: expected math %r, parsed %r' % (path, exp[1:4], got[1:4])
         return same(exp[4], got[4], path + '.math')
+    if k == 'L':
+        return same(exp[1], got[1], path + '.list')
     if k == 'M':
         if exp[1] != got[1]:
             return '%s: expected macro %r, parsed %r' % (path, exp[1], got[1])
